@@ -282,7 +282,7 @@ class SymBackend(BackendBase):
             self.I.dict_setitem(d, k, v)
         return d
 
-    def uf(self, name, domains, ret="bool", fault=False, fault_cls="HarnessFault", unhashable=False):
+    def uf(self, name, domains, ret="bool", fault=False, fault_cls="HarnessFault", unhashable=False, falsy=False):
         ft = None
         if fault:
             ft = z3.Int("h_" + name + "_fault")
@@ -290,6 +290,7 @@ class SymBackend(BackendBase):
         u = self.I.make_ufunc("uf_" + name, len(domains), ret, fault=ft,
                               fault_exc=self.classes[fault_cls], label=name)
         u.unhashable = unhashable       # a callable object that defines __eq__ without __hash__
+        u.falsy = falsy                 # a callable object whose truth value is False (e.g. an empty callable container)
         self.by_oid[u.oid] = name
         self.objects[name] = u
         self.holes.append(("uf", name, u, [list(d) for d in domains], ft))
